@@ -31,9 +31,9 @@ func (s *sess) isSendPrimitive(fn *ssa.Function) bool {
 	if fn == nil || fn.Signature.Recv() == nil {
 		return false
 	}
-	switch fn.Name() {
+	switch an.NameOf(fn) {
 	case "send", "sendWithErrorCheck", "Send":
-		return an.FuncIs(fn, "session", "Session."+fn.Name())
+		return an.FuncIs(fn, "session", "Session."+an.NameOf(fn))
 	}
 	return false
 }
@@ -95,7 +95,7 @@ func runC07(c *core.Ctx, o Options) {
 		if s.isSendPrimitive(r.Fn) {
 			continue
 		}
-		if r.Cat == "method" && !isExported(r.Fn.Name()) && s.inPkgCallers(r.Fn) > 0 && r.Fn.Name() != "init" {
+		if r.Cat == "method" && !isExported(an.NameOf(r.Fn)) && s.inPkgCallers(r.Fn) > 0 && an.NameOf(r.Fn) != "init" {
 			continue // analysed in the context of its callers (spliced)
 		}
 		traces := s.tr.Traces(r.Fn, s.m.AllStates)
@@ -109,10 +109,10 @@ func runC07(c *core.Ctx, o Options) {
 				case "send":
 					covered[e.Instr] = true
 					kinds := strings.Join(e.Kinds, "|")
-					key := fmt.Sprintf("%s|send(%s)via %s in %s", r.Name(), kinds, e.Name, e.Fn.Name())
+					key := fmt.Sprintf("%s|send(%s)via %s in %s", r.Name(), kinds, e.Name, an.NameOf(e.Fn))
 					a := aggs[key]
 					if a == nil {
-						a = &agg{ob: c.Ob("G1", r.Name(), fmt.Sprintf("send(%s) via %s in %s", kinds, e.Name, e.Fn.Name()), e.Pos)}
+						a = &agg{ob: c.Ob("G1", r.Name(), fmt.Sprintf("send(%s) via %s in %s", kinds, e.Name, an.NameOf(e.Fn)), e.Pos)}
 						aggs[key] = a
 						order = append(order, key)
 					}
@@ -136,7 +136,7 @@ func runC07(c *core.Ctx, o Options) {
 						} else {
 							a.bad = append(a.bad, fmt.Sprintf("a goroutine (spawned in %s) sends %s; only the timer goroutines of start may send, and only Heartbeat/TestRequest", nameOf(parent), kinds))
 						}
-					case r.Cat == "method" && r.Fn.Name() == "Send" && len(e.Kinds) == 1 && strings.HasPrefix(e.Kinds[0], "Param:"):
+					case r.Cat == "method" && an.NameOf(r.Fn) == "Send" && len(e.Kinds) == 1 && strings.HasPrefix(e.Kinds[0], "Param:"):
 						a.good++
 						a.ob.Fact("public send API: the message is the application's")
 					case e.Pre&pre == 0:
@@ -151,7 +151,7 @@ func runC07(c *core.Ctx, o Options) {
 					}
 					a := startSites[e.Instr]
 					if a == nil {
-						a = &agg{ob: c.Ob("G2", r.Name(), "call of start in "+e.Fn.Name(), e.Pos)}
+						a = &agg{ob: c.Ob("G2", r.Name(), "call of start in "+an.NameOf(e.Fn), e.Pos)}
 						startSites[e.Instr] = a
 					}
 					okCtx := false
@@ -258,7 +258,7 @@ func runC07(c *core.Ctx, o Options) {
 			if !isSend {
 				return
 			}
-			c.Check(covered[in], "census", f.Name(), "send site reached by an analysed entry point", in.Pos(),
+			c.Check(covered[in], "census", an.NameOf(f), "send site reached by an analysed entry point", in.Pos(),
 				"covered by G1", "this send site is not on any path of an analysed entry point (dead code or an unmodelled way of calling it)")
 		})
 	}
@@ -275,7 +275,7 @@ func runC07(c *core.Ctx, o Options) {
 			}
 		}
 		if hasSend {
-			c.Check(parent == startFn, "G3", nameOf(parent), "sending goroutine "+r.Fn.Name()+" spawned", r.Site.Pos(),
+			c.Check(parent == startFn, "G3", nameOf(parent), "sending goroutine "+an.NameOf(r.Fn)+" spawned", r.Site.Pos(),
 				"spawned by start", "a goroutine that sends messages is spawned outside start")
 		}
 	}
@@ -296,7 +296,7 @@ func nameOf(fn *ssa.Function) string {
 	if fn == nil {
 		return "?"
 	}
-	return fn.Name()
+	return an.NameOf(fn)
 }
 
 // spawnerOf is the function that contains the go statement of a goroutine root (for a literal this is its enclosing function).
